@@ -176,8 +176,7 @@ def run_alpha(props: List[str], root: str, evidence: bool = False) -> int:
     worst = max(worst, _run_alpha_mode(props, root, False, transform=reformat_only, mode="re-printed from the syntax tree (no comments, other line numbers)"))
     worst = max(worst, _run_alpha_mode(props, root, False, transform=reverse_keywords, mode="keyword arguments of every call in reverse order"))
     worst = max(worst, _run_alpha_mode(props, root, False, transform=flip_comparisons, mode="comparisons written the other way round"))
-    if os.environ.get("ALPHA_SWAP"):
-        worst = max(worst, _run_alpha_mode(props, root, False, transform=swap_branches, mode="two-way branches swapped under the negated condition"))
+    worst = max(worst, _run_alpha_mode(props, root, False, transform=swap_branches, mode="two-way branches swapped under the negated condition"))
     if evidence:
         import json
         from .report import VERIF
@@ -187,7 +186,7 @@ def run_alpha(props: List[str], root: str, evidence: bool = False) -> int:
                 with open(evp) as fh:
                     ev = json.load(fh)
                 ev["coverage"].setdefault("self_validation", {})["alpha_renaming"] = {
-                    "modes": ["suffix _rn", "opaque zq<i>", "re-printed source", "reversed keyword arguments", "flipped comparisons"], "verdict": "same verdict and obligation count on the renamed tree" if worst == 0 else "FAILED",
+                    "modes": ["suffix _rn", "opaque zq<i>", "re-printed source", "reversed keyword arguments", "flipped comparisons", "swapped two-way branches"], "verdict": "same verdict and obligation count on the renamed tree" if worst == 0 else "FAILED",
                     "what": "every local variable of every function of the package renamed consistently in memory; a changed verdict is a checker bug"}
                 with open(evp, "w") as fh:
                     json.dump(ev, fh, indent=1)
